@@ -374,6 +374,7 @@ def _install_builtin_checks():
 
 
 _cf_seen = []
+_tracing_now = lambda: False  # noqa: E731  (replaced under the solver)
 
 
 def _cf_check():
@@ -602,11 +603,19 @@ def _set(event, key, v):
         event[key] = v
 
 
-NTIME = 8
+NTIME = 9
+
+
+def _pick(k, items):
+    # a symbolic index into a tuple would give symbolic elements: compare with each position
+    for i in range(len(items)):
+        if k == i:
+            return items[i]
+    raise IndexError(k)
 
 
 def _time(k):
-    return (_MISSING, None, 0.0, 1.5e9, "abc", 1e18, float("nan"), 2 ** 70)[k]
+    return _pick(k, (_MISSING, None, 0.0, 1.5e9, "abc", 1e18, float("nan"), 2 ** 70, BadNumber()))
 
 
 NSYS = 6
@@ -675,27 +684,56 @@ def _in_alpha(s):
     return True if acc else False
 
 
-def _text(fn, *a, **kw):
-    """call a formatter: the result must be an instance of str and nothing may be raised"""
+def _call(fn, a, kw):
+    return fn(*a, **kw)
+
+
+def _call_native(fn, a, kw):
+    """every input is a concrete object (menu harnesses: the solver only chooses the menu entries):
+    run the real code outside CrossHair's tracing, i.e. with the real C datetime / str.format /
+    "%"-formatting instead of CrossHair's Python models of them"""
+    if api.MODE == "sym" and _tracing_now():
+        with _NoTracing():
+            return fn(*a, **kw)
+    return fn(*a, **kw)
+
+
+def _checked(call, fn, a, kw, none_ok):
     del _cf_seen[:]
     try:
-        out = fn(*a, **kw)
+        out = call(fn, a, kw)
     except Exception:  # noqa  (hostile objects only raise Exception subclasses)
         _cf_check()
         return False
     _cf_check()
+    if none_ok and out is None:
+        return True
     return isinstance(out, str)
 
 
+def _keep(fn, into):
+    def call(*a, **kw):
+        r = fn(*a, **kw)
+        into.append(r)
+        return r
+    return call
+
+
+def _text(fn, *a, **kw):
+    """call a formatter: the result must be an instance of str and nothing may be raised"""
+    return _checked(_call, fn, a, kw, False)
+
+
 def _text_or_none(fn, *a, **kw):
-    del _cf_seen[:]
-    try:
-        out = fn(*a, **kw)
-    except Exception:  # noqa
-        _cf_check()
-        return False
-    _cf_check()
-    return out is None or isinstance(out, str)
+    return _checked(_call, fn, a, kw, True)
+
+
+def _ntext(fn, *a, **kw):
+    return _checked(_call_native, fn, a, kw, False)
+
+
+def _ntext_or_none(fn, *a, **kw):
+    return _checked(_call_native, fn, a, kw, True)
 
 
 def _fmt_checks(event):
@@ -824,14 +862,24 @@ def as_text(fsel: int, va: int, tb: bool, fail: int) -> bool:
     event = {"a": _value(va), "b": 3}
     _set(event, "log_format", _format_menu(fsel))
     _set(event, "log_failure", _fail(fail))
+    tb = True if tb else False
     cover()
-    if not _text(F.formatEvent, event):
+    if not _ntext(F.formatEvent, event):
         return False
-    if not _text(F.eventAsText, event, includeTraceback=tb, includeTimestamp=False, includeSystem=False):
+    got = []
+    if not _ntext(_keep(F.eventAsText, got), event, includeTraceback=tb, includeTimestamp=True, includeSystem=True):
         return False
-    if not _text_or_none(F.formatEventAsClassicLogText, event):
+    if not _ntext_or_none(_keep(F.formatEventAsClassicLogText, got), event):
         return False
-    if "log_failure" in event and not _text(F._formatTraceback, event["log_failure"]):
+    if fsel <= 2:
+        # documented: nothing to format and no traceback -> "" / None, whatever the other flags say
+        if not (tb and "log_failure" in event) and got[0] != "":
+            return False
+        if "log_failure" not in event and got[1] is not None:
+            return False
+    elif got[0] == "" or got[1] is None:
+        return False
+    if "log_failure" in event and not _ntext(F._formatTraceback, event["log_failure"]):
         return False
     return True
 
@@ -848,23 +896,26 @@ def sys_fields(empty: bool, ts: bool, sy: bool, tsel: int, ssel: int, nsel: int,
     _set(event, "log_system", _sys(ssel))
     _set(event, "log_namespace", _sys(nsel))
     _set(event, "log_level", _level(lsel))
+    ts = True if ts else False
+    sy = True if sy else False
     cover()
-    if not _text(F.eventAsText, event, includeTraceback=True, includeTimestamp=ts, includeSystem=sy):
+    if not _ntext(F.eventAsText, event, includeTraceback=True, includeTimestamp=ts, includeSystem=sy):
         return False
-    if not _text_or_none(F.formatEventAsClassicLogText, event):
+    if not _ntext_or_none(F.formatEventAsClassicLogText, event):
         return False
-    if not _text(F.formatTime, event.get("log_time")):
+    if not _ntext(F.formatTime, event.get("log_time")):
         return False
-    if not _text(F._formatSystem, event):
+    if not _ntext(F._formatSystem, event):
         return False
     return True
 
 
-NLEG = 10
+NLEG = 11
 
 
 def _legacy_format(k):
-    return ("%(a)s", "%(a)r and %(b)d", "%(zz)s", "%", "%(a", b"%(a)s", 5, None, "plain", "%(a)d")[k]
+    return _pick(k, ("%(a)s", "%(a)r and %(b)d", "%(zz)s", "%", "%(a", b"%(a)s", 5, None, "plain", "%(a)d",
+                     BadRepr()))
 
 
 def _legacy_message(ed, msel, va):
@@ -890,9 +941,9 @@ def legacy_format(msel: int, va: int, fsel: int) -> bool:
     if fsel < NLEG:
         ed["format"] = _legacy_format(fsel)
     cover()
-    if not _text_or_none(_tlog.textFromEventDict, ed):
+    if not _ntext_or_none(_tlog.textFromEventDict, ed):
         return False
-    if "format" in ed and not _text(_tlog._safeFormat, ed["format"], ed):
+    if "format" in ed and not _ntext(_tlog._safeFormat, ed["format"], ed):
         return False
     return True
 
@@ -913,7 +964,7 @@ def legacy_error(msel: int, fail: int, wsel: int, iserr: bool) -> bool:
     elif wsel == 3:
         ed["why"] = b"\xff"
     cover()
-    return _text_or_none(_tlog.textFromEventDict, ed)
+    return _ntext_or_none(_tlog.textFromEventDict, ed)
 
 
 def _prod(*dims):
@@ -935,12 +986,24 @@ def _fmt_shards(tier):
     return [o + ("vb == 12",) for o in out]
 
 
+_THIRDS = ("ord(body[0]) < 58", "58 <= ord(body[0]) <= 97", "ord(body[0]) > 97")   # !().0 / :[]a / brs{}
+
+
 def _field_shards(tier):
     m = BOUNDS[tier]["m"]
     out = [("len(body) <= %d" % (m - 2), "%d <= va <= %d" % (a, a + 6)) for a in (0, 7)]
     out += [("len(body) == %d" % (m - 1), "va == %d" % a) for a in range(NVAL)]
-    out += [("len(body) == %d" % m, "va == %d" % a) for a in (QVALS if tier == "quick" else range(NVAL))]
+    out += [("len(body) == %d" % m, "va == %d" % a, third)
+            for a in (QVALS if tier == "quick" else range(NVAL)) for third in _THIRDS]
     return [o + ("vb == 12",) for o in out]
+
+
+def _sys_shards(tier):
+    if tier == "quick":
+        # odd time values with default system fields, odd system fields with a missing / None time
+        return [("tsel <= 1", "lsel == %d" % i) for i in range(NLEVEL)] + [
+            ("tsel >= 2", "ssel == 0", "nsel == 0", "lsel == 0")]
+    return [("lsel == %d" % i, "nsel == %d" % j) for i in range(NLEVEL) for j in range(NSYS)]
 
 
 def _flat_shards(tier):
@@ -956,16 +1019,79 @@ HARNESSES = [
     H(flat_event, shards=_flat_shards, timeout={"quick": 90, "thorough": 1200}, labels=("end", "flattened")),
     H(unformattable, timeout={"quick": 60, "thorough": 300}),
     H(as_text, shards=lambda tier: _prod(("fsel", NFMT)), timeout={"quick": 60, "thorough": 600}),
-    H(sys_fields, shards=lambda tier: _prod(("lsel", NLEVEL)), timeout={"quick": 60, "thorough": 600}),
+    H(sys_fields, shards=_sys_shards, timeout={"quick": 60, "thorough": 600}),
     H(legacy_format, shards=lambda tier: _prod(("msel", 4)), timeout={"quick": 60, "thorough": 600}),
     H(legacy_error, timeout={"quick": 60, "thorough": 600}),
 ]
 
 VECTORS = {
-    "fmt_event": [("{a}", 0, 0), ("{a!r}", 5, 0), ("{a()}", 8, 0), ("{a.b}", 12, 0), ("}", 0, 0), ("{a[0]}", 11, 1)],
+    # from twisted.logger.test.test_format (formatEvent, method call, attribute subscript, evil(), Unformattable
+    # key / value / error, weird and bytes formats, unformattable system, non-Failure log_failure) and
+    # twisted.test.test_log (textFromEventDict) - mapped onto the menus
+    "fmt_event": [("{a}", 0, 0), ("hello {a!r}", 1, 0), ("{a()}", 8, 0), ("hello {b.a()}", 0, 12),
+                  ("{a[a]} {a[b]}", 10, 0), ("}", 0, 0), ("{a[0]}", 11, 1), ("{a!x}", 0, 0), ("{", 5, 5),
+                  ("{a:>{b}}", 1, 0), ("{a:{b:{a}}}", 1, 0), ("{0}{}", 0, 0)],
+    "field_event": [("a()", 9, 0), ("a!r:>{b}", 1, 0), ("a.r", 12, 0), ("a[r]()", 10, 0), ("a.b", 12, 0)],
+    "flat_event": [("a!r", 1, 0), ("a", 4, 3), ("", 0, 4), ("a()", 9, 0), ("a", 0, 2), ("a", 0, 5)],
+    "unformattable": [("{a()}", 8, 2), ("x", 5, 0), ("", 0, 5), ("zz", 7, 3), ("k", 1, 4)],
+    "as_text": [(3, 0, True, 2), (5, 4, False, 0), (0, 0, True, 5), (6, 5, True, 4), (8, 9, False, 7), (2, 0, True, 0)],
+    "sys_fields": [(False, True, True, 3, 2, 0, 0), (False, True, True, 1, 5, 0, 0), (False, True, True, 4, 0, 5, 3),
+                   (True, True, True, 8, 0, 0, 5), (False, True, False, 6, 0, 0, 0), (False, False, True, 0, 3, 4, 4)],
+    "legacy_format": [(0, 4, 0), (1, 5, 11), (0, 0, 10), (2, 0, 3), (3, 7, 5)],
+    "legacy_error": [(0, 4, 2, True), (0, 2, 0, True), (0, 3, 3, True), (0, 0, 0, True), (1, 7, 1, False)],
 }
 
-BOUNDS_TEXT = "TODO"
-OUTSIDE = []
-ASSUMPTIONS = []
-EXPLANATION = "TODO"
+BOUNDS_TEXT = ("format strings over the 14 characters { } ! : . [ ] ( ) a b 0 r s: every whole format string of length "
+               "<= n (fmt_event), every single replacement field '<{' + body + '}>' with len(body) <= m "
+               "(field_event; the longest bodies in the quick tier with 6 of the 14 values) and '{' + body + '}.' "
+               "with len(body) <= f after the real flattenEvent (flat_event); event keys a and b take any of 14 "
+               "menu values (int, str, None, bytes, objects whose __str__ / __repr__ / __format__ raise or return "
+               "non-text, raising and hostile-returning callables, dict, list, attribute holder with a raising "
+               "property and raising __getitem__, Failure of an exception whose own str/repr raise); b is the "
+               "attribute holder in the sharded runs.  Menu harnesses (the solver only drives the case split, the "
+               "real code then runs natively): 9 log_format kinds (missing, None, '', text, utf-8 bytes, invalid "
+               "bytes, int, object with raising repr, nested-spec + call format) x 14 values x 8 log_failure kinds "
+               "x traceback flag; 9 log_time x 6 log_system x 6 log_namespace x 6 log_level kinds x both flags "
+               "(quick: odd times with default system fields and odd system fields with missing/None time; "
+               "thorough: full product); formatUnformattableEvent with 6 error kinds x 14 values x symbolic "
+               "format of <= 2 characters; twisted.python.log.textFromEventDict/_safeFormat with 11 '%' formats x "
+               "14 values x 4 message kinds and 8 failure x 4 why x 4 message kinds")
+OUTSIDE = ["format strings with characters outside the 14-character alphabet or longer than the bounds (letters other "
+           "than a b r s and digits other than 0 behave like those; width/precision/type characters of format specs "
+           "for str and int values are reached only as far as they are spelled with the alphabet)",
+           "exceptions raised by hostile objects that are not Exception subclasses (KeyboardInterrupt, SystemExit, "
+           "GeneratorExit ...): the menu raises Exception subclasses only",
+           "a user-supplied formatTime callable that raises (eventAsText(formatTime=...)); only the default "
+           "formatTime is used",
+           "objects that misbehave in ways other than raising / returning non-text from __str__, __repr__, __format__, "
+           "__call__, __getattr__ (property), __getitem__, __index__/__float__: e.g. infinite recursion, "
+           "unbounded output, side effects on the event",
+           "the '%'-style formatter of the legacy twisted.python.log path is C code: its format strings are a "
+           "concrete menu of 11, not symbolic",
+           "the text CONTENT of the results (only: is an instance of str / None where documented, nothing raised; "
+           "plus '' / None for an event with nothing to format and no traceback)",
+           "observers, file output, encoding of the text (FileLogObserver, textFileLogObserver)"]
+ASSUMPTIONS = ["_string.formatter_parser and _string.formatter_field_name_split (C) are replaced under the solver by "
+               "the pure-Python ports in this file; selftest() compares them with the C functions on every string "
+               "of length <= 4 over the alphabet, all strings of length 5-6 over { } ! : [ a, and extra vectors "
+               "(nested specs, unicode digits, overflowing indices, non-str arguments): same tuples or same "
+               "exception type and message.  Replay uses the C functions",
+               "repr() of a symbolic str is a constant text under the solver (CPython's repr of a str always "
+               "returns a str and cannot raise); consequently the content of error texts is not inspected",
+               "CrossHair's replacements of the builtins repr/str/format/getattr are extended here: the CPython "
+               "checks '__repr__/__str__ returned non-string' and '__format__ must return a str' are restored; "
+               "format() of an object whose __format__ is object.__format__ is str(obj) for an empty spec and "
+               "TypeError otherwise; getattr() with a symbolic name compares the name with dir(obj) and then calls "
+               "the class's __getattr__ hook; format specs reaching int/str values are realised (one path per spec)",
+               "under the solver the event is a dict subclass whose lookup of a symbolic key scans the keys with == "
+               "instead of hashing; replay and the menu harnesses use plain dicts",
+               "twisted's `except BaseException` clauses must not swallow CrossHair's path-control exceptions: "
+               "formatUnformattableEvent and reflect._safeFormat are wrapped to re-raise them (the real functions "
+               "run for everything else; _safeFormat runs untraced because traceback.print_exc overflows the "
+               "tracer's symbolic set), and any such exception created during a call is re-raised by the harness",
+               "menu harnesses (as_text, sys_fields, legacy_*) run the real code on concrete objects outside "
+               "CrossHair's tracing, i.e. with the real C datetime / str.format / '%' implementations"]
+EXPLANATION = ("real formatEvent / eventAsText / formatEventAsClassicLogText / formatUnformattableEvent / flatFormat "
+               "(+ legacy textFromEventDict) on a symbolic format string parsed by validated pure-Python ports of "
+               "CPython's format-string parsers, with solver-chosen hostile event values; result must be str, "
+               "nothing raised")
